@@ -22,6 +22,7 @@ type seed struct {
 }
 
 var seeds = []seed{
+	{"SumBigValues computes the sign plane's weight in a machine word", "U7", "roaring64/bsi64.go", "\tsum.Sub(sum, planeTerm(b.BitCount()))\n", "\tsum.Sub(sum, big.NewInt(int64(foundSet.AndCardinality(&b.bA[b.BitCount()])<<uint(b.BitCount()))))\n", "SumBigValues|word shift"},
 	{"byteSliceAsUint64Slice converts the pointer of an empty slice", "UNS2", "serialization_littleendian.go", "\tif len(slice) == 0 {\n\t\t// nothing to view: the (possibly shorter) allocation behind an empty slice must not be\n\t\t// reinterpreted as a wider element\n\t\treturn nil\n\t}\n\tptr := unsafe.SliceData(slice)\n\treturn unsafe.Slice((*uint64)", "\tptr := unsafe.SliceData(slice)\n\tif ptr == nil {\n\t\treturn nil\n\t}\n\treturn unsafe.Slice((*uint64)", "byteSliceAsUint64Slice"},
 	{"RemoveRange clamps the end after comparing it with the start", "U6", "roaring.go", "\t\trangeEnd = uint64(0x100000000)\n\t\tif rangeStart >= rangeEnd {\n\t\t\t// the whole range lies beyond the 32-bit universe\n\t\t\treturn\n\t\t}\n", "\t\trangeEnd = uint64(0x100000000)\n", "RemoveRange|rangeStart narrowed"},
 	{"CardinalityInRange clamps the end after comparing it with the start", "U6", "roaring.go", "\t\tend = MaxUint32 + 1\n\t\tif start >= end {\n\t\t\t// the whole range lies beyond the 32-bit universe\n\t\t\treturn 0\n\t\t}\n", "\t\tend = MaxUint32 + 1\n", "CardinalityInRange|start narrowed"},
